@@ -65,6 +65,10 @@ func newSliceWeb(fn *ssa.Function) *sliceWeb {
 				}
 			case *ssa.Slice:
 				if isSliceT(x.Type()) && isSliceT(x.X.Type()) {
+					if n, isC := ssau.ConstInt(x.High); isC && n == 0 && x.High != nil {
+						// v[:0] is a new, empty list (it only reuses v's storage)
+						break
+					}
 					w.union(x, x.X)
 				}
 			case *ssa.Call:
